@@ -220,3 +220,13 @@ func init() {
 		})
 	}
 }
+
+func init() {
+	// formatuint(x) / formatint(x): the decimal text strconv.FormatUint(x, 10) / FormatInt(x, 10) return
+	extraSpecFuncs["formatuint"] = func(ctx *EvalCtx, args []CV) CV {
+		return CV{ctx.ex.f.App("strconv.FormatUint_", SStr, args[0].t, ctx.ex.f.Int(10)), types.Typ[types.String]}
+	}
+	extraSpecFuncs["formatint"] = func(ctx *EvalCtx, args []CV) CV {
+		return CV{ctx.ex.f.App("strconv.FormatInt_", SStr, args[0].t, ctx.ex.f.Int(10)), types.Typ[types.String]}
+	}
+}
